@@ -1,4 +1,5 @@
 import WtfModel.Props.C17
+import WtfModel.Props.C17b
 #print axioms Wtf.C17.starts
 #print axioms Wtf.C17.spec_recognised
 #print axioms Wtf.C17.limit_in_force_pos
@@ -12,3 +13,10 @@ import WtfModel.Props.C17
 #print axioms Wtf.C17.no_escapes
 #print axioms Wtf.C17.history_one
 #print axioms Wtf.C17.history_untouched
+-- Props/C17b.lean (the JSON block is a JSON text); the same lines are in Audit/C17b.lean
+#print axioms Wtf.C17.layout_ok
+#print axioms Wtf.C17.names_ok
+#print axioms Wtf.C17.json_text_of_items
+#print axioms Wtf.C17.json_wellformed
+#print axioms Wtf.C17.json_object
+#print axioms Wtf.C17.toValid_ascii
